@@ -16,15 +16,15 @@ LEVEL = 'fault_enumeration'
 
 def sizes(ctx):
     if ctx.tier == 'quick':
-        return dict(programs=16, inputs=2, limit=160, corpus_inputs=1)
-    return dict(programs=100, inputs=6, limit=400, corpus_inputs=4)
+        return dict(programs=16, lat_programs=8, inputs=2, limit=160, corpus_inputs=1)
+    return dict(programs=100, lat_programs=48, inputs=6, limit=400, corpus_inputs=4)
 
 
 def gen_cases(ctx):
     sz = sizes(ctx)
     cases = []
     progs = []
-    for f in [corpus.tc, corpus.sp_count, corpus.neg_agg_chain, corpus.funnel_lat]:
+    for f in [corpus.tc, corpus.sp_count, corpus.neg_agg_chain, corpus.funnel_lat, corpus.set_reach]:
         rng = random.Random(ctx.rng.getrandbits(48))
         name, prog, input_rels, mk = f(rng)
 
@@ -41,12 +41,19 @@ def gen_cases(ctx):
             bprog, binputs, bmk = B.simple_positive_program(rng, provider, ternary)
             progs.append(('b_%s%d' % (provider, 3 if ternary else 2), (bprog, B.reference_program(bprog, provider, ['r'])), bmk, rng, sz['corpus_inputs'] + 1))
     n = 0
-    while n < sz['programs']:
+    # the last `lat_programs` programs are lattice-only (C03's configuration): rows improved in place across iterations and read
+    # through key and non-key indices, interrupted between any two iterations
+    while n < sz['programs'] + sz['lat_programs']:
         rng = random.Random(ctx.rng.getrandbits(48))
-        cfg = G2.default_cfg(lattices=True, neg=True, agg=True)
+        if n < sz['programs']:
+            cfg = G2.default_cfg(lattices=True, neg=True, agg=True)
+        else:
+            cfg = G2.default_cfg(lattices=True, neg=False, agg=False, p_lattice=0.6)
         cfg.dom = rng.choice([3, 4, 5])
         cfg.n_rels, cfg.n_rules = (3, 6), (4, 9)
         prog, input_rels = G2.gen_program(rng, cfg)
+        if n >= sz['programs'] and not any(r.is_lat for r in prog.rels):
+            continue
         prog = G2.add_probes(prog, rng, 2)
         assert not G.check_scoping(prog)
         loadable = [r.name for r in prog.rels if not r.name.startswith('pb')]
